@@ -623,12 +623,12 @@ Section Gen.
 
   (* ---------------------------------------------------------------- element fields *)
   Lemma var_common_inv var : var_common var = true ->
-    v_init var = true /\ v_mixed var = false /\ v_any_type var = false /\ True
+    v_init var = true /\ v_mixed var = false /\ v_any_type var = is_object var /\ True
     /\ v_elements var = [] /\ v_wildcards var = [] /\ True /\ True
     /\ v_index var <> 0.
   Proof.
     unfold var_common. intros H. peel H H7. peel H H4. peel H H3. peel H H1. peel H H0.
-    apply negb_true_iff in H0, H1, H7. apply N.eqb_neq in H7.
+    apply negb_true_iff in H0, H7. apply eqb_prop in H1. apply N.eqb_neq in H7.
     destruct (v_elements var); [|discriminate]. destruct (v_wildcards var); [|discriminate].
     repeat split; assumption.
   Qed.
@@ -661,20 +661,28 @@ Section Gen.
     split; [right; split; reflexivity|]. destruct (v_default var); try discriminate. reflexivity.
   Qed.
 
+  (* no xsi:type: not an xs:anyType field, or None / a str in one *)
+  Definition no_type_attr (var : xvar) (x : value) : Prop :=
+    v_any_type var = false
+    \/ match x with VNone => True | VP (PStr s) => snd (c_datatype c (PStr s)) = true | _ => False end.
   Lemma convert_element_plain var x w :
-    v_any_type var = false ->
+    no_type_attr var x ->
     encode_primitive c u (v_format var) x = Ok w ->
     convert_element c u x var
     = Ok (WStart (v_qname var) :: map (fun a => WAttr (fst a) (snd a)) (nil_attr_g var x) ++ [WData w; WEnd (v_qname var)]).
   Proof.
-    intros Ha He. unfold convert_element, nil_attr_g. rewrite Ha, He. cbn [gbind].
+    intros Ha He. unfold convert_element, nil_attr_g. rewrite He. cbn [gbind].
     assert (Ety : match x with
                   | VNone => []
-                  | _ => if negb (is_empty_str x) && false
+                  | _ => if negb (is_empty_str x) && v_any_type var
                          then let '(dt, is_string) := datatype_of c x in if is_string then [] else [ev_type dt]
                          else []
                   end = @nil wevent).
-    { destruct x; try reflexivity; rewrite andb_false_r; reflexivity. }
+    { destruct Ha as [Ha|Ha].
+      - rewrite Ha. destruct x; try reflexivity; rewrite andb_false_r; reflexivity.
+      - destruct x as [|p| | | | |]; try (exfalso; exact Ha); [reflexivity|]. destruct p as [sx| | | | | | | |]; try (exfalso; exact Ha).
+        destruct (negb (is_empty_str (VP (PStr sx))) && v_any_type var); [|reflexivity].
+        cbn [datatype_of]. destruct (c_datatype c (PStr sx)) as [dt b]. cbn [snd] in Ha. rewrite Ha. reflexivity. }
     rewrite Ety. destruct (v_nillable var && negb (py_truthy x)); reflexivity.
   Qed.
 
@@ -690,7 +698,7 @@ Section Gen.
 
   (* the recursive calls reached from an element field: one unit of fuel each *)
   Lemma run_anytype_prim f var x w :
-    kind_elem var -> v_any_type var = false ->
+    kind_elem var -> no_type_attr var x ->
     (match x with VP _ | VList _ _ => True | _ => False end) ->
     encode_primitive c u (v_format var) x = Ok w ->
     run c u ign (S f) (CAnyType x var)
@@ -763,22 +771,35 @@ Section Gen.
     destruct (u_meta u k) as [mk|]; [|congruence]. cbn [gbind]. reflexivity.
   Qed.
 
+  Definition any_elem (var : xvar) : Prop :=
+    v_types var = [TObject] /\ v_clazz var = None /\ v_tokens_factory var = None /\ v_factory var = None
+    /\ v_nillable var = false /\ v_default var = DNone /\ v_sequence var = None /\ v_any_type var = true.
+
   Lemma wf_elem_inv var : wf_elem var = true ->
     kind_elem var /\ var_common var = true
     /\ ((exists k, v_types var = [TClass k] /\ v_clazz var = Some k /\ v_tokens_factory var = None)
         \/ (exists t, v_types var = [t] /\ simple_type t = true /\ v_clazz var = None)
-        \/ (v_types var = [TQName] /\ v_clazz var = None /\ v_tokens_factory var = None)).
+        \/ (v_types var = [TQName] /\ v_clazz var = None /\ v_tokens_factory var = None)
+        \/ any_elem var).
   Proof.
     unfold wf_elem. intros H. peel H H1. peel H Hwo. peel H Hq. peel H H0. split; [apply kind_elem_of; exact H|]. split; [exact H0|].
-    unfold var_type in H1. destruct (v_types var) as [|t [|? ?]]; try discriminate.
+    unfold var_type in H1. destruct (v_types var) as [|t [|? ?]] eqn:Ety; try discriminate.
     assert (Hsimple : forall b : bool, simple_type t = true ->
               simple_type t && match v_clazz var with None => true | Some _ => false end && b = true ->
               exists t0, [t] = [t0] /\ simple_type t0 = true /\ v_clazz var = None).
     { intros b Hs Hx. peel Hx Hx2. peel Hx Hx1. exists t. split; [reflexivity|]. split; [exact Hs|].
       destruct (v_clazz var); [discriminate|reflexivity]. }
     destruct t as [| | | | | | | | | | | | |e|k]; try (right; left; apply (Hsimple _ eq_refl H1)); try discriminate H1.
-    - right. right. peel H1 H3. peel H1 H2. peel H1 H4. split; [reflexivity|].
+    - right. right. left. peel H1 H3. peel H1 H2. peel H1 H4. split; [reflexivity|].
       destruct (v_clazz var); [discriminate|]. destruct (v_tokens_factory var); [discriminate|]. split; reflexivity.
+    - right. right. right. peel H1 G6. peel H1 G5. peel H1 G4. peel H1 G3. peel H1 G2.
+      apply negb_true_iff in H1.
+      destruct (var_common_inv var H0) as [_ [_ [Hany _]]]. unfold is_object in Hany. rewrite Ety in Hany.
+      unfold any_elem. rewrite Ety.
+      destruct (v_clazz var); [discriminate|]. destruct (v_tokens_factory var); [discriminate|].
+      destruct (v_factory var); [discriminate|]. destruct (v_default var); try discriminate.
+      destruct (v_sequence var); [discriminate|].
+      repeat (split; [first [reflexivity|assumption]|]). exact Hany.
     - left. exists k. peel H1 H3. peel H1 H2. split; [reflexivity|].
       destruct (v_clazz var) as [k'|]; cbn in H1; [|discriminate]. apply N.eqb_eq in H1. subst k'.
       destruct (v_tokens_factory var); [discriminate|]. split; reflexivity.
@@ -789,7 +810,8 @@ Section Gen.
     (exists t, v_types var = [t] /\ simple_type t = true /\ v_clazz var = None /\ v_tokens_factory var = None)
     \/ (exists k, v_types var = [TClass k] /\ v_clazz var = Some k /\ v_tokens_factory var = None).
   Proof.
-    intros H Hn. destruct (wf_elem_inv var H) as [_ [_ [[k Hk]|[Hs|[Hq _]]]]]; [right; exists k; exact Hk| |].
+    intros H Hn. destruct (wf_elem_inv var H) as [_ [_ [[k Hk]|[Hs|[[Hq _]|Ha]]]]]; [right; exists k; exact Hk| | |].
+    3:{ exfalso. destruct Ha as [_ [_ [_ [_ [Hnn _]]]]]. congruence. }
     - left. destruct Hs as [t [Ht [Hst Hcl]]]. exists t. split; [exact Ht|]. split; [exact Hst|]. split; [exact Hcl|].
       unfold wf_elem in H. peel H H1. rewrite Hn in H1. unfold var_type in H1. rewrite Ht in H1.
       rewrite Hcl in H1.
@@ -866,12 +888,22 @@ Section Gen.
     /\ forall e v k, In e (m_elements m) -> In v (snd e) -> v_clazz v = Some k -> wfr k.
   Proof.
     intros [R [Hc Hin]]. unfold closed_ok in Hc. pose proof Hc as Hc0. rewrite forallb_forall in Hc. specialize (Hc cl Hin).
-    destruct (u_meta u cl) as [m|]; [|discriminate]. peel Hc H1. peel Hc H0. apply N.eqb_eq in Hc.
+    destruct (u_meta u cl) as [m|]; [|discriminate]. peel Hc H1. peel Hc Hfree. peel Hc H0. apply N.eqb_eq in Hc.
     exists m. repeat split; try assumption.
     intros e v k He Hv Hk. exists R. split; [exact Hc0|].
     rewrite forallb_forall in H1. apply existsb_N_in. apply H1.
     unfold class_children. apply in_flat_map. exists e. split; [exact He|].
     apply in_flat_map. exists v. split; [exact Hv|]. rewrite Hk. left; reflexivity.
+  Qed.
+
+  Lemma wfr_any cl m e v : wfr cl -> u_meta u cl = Some m -> In e (m_elements m) -> In v (snd e) ->
+    v_types v = [TObject] -> find_types u (v_qname v) = [].
+  Proof.
+    intros [R [Hc Hin]] Hm He Hv Ht. unfold closed_ok in Hc. rewrite forallb_forall in Hc. specialize (Hc cl Hin).
+    rewrite Hm in Hc. peel Hc H1. peel Hc Hfree. unfold any_names_free in Hfree.
+    rewrite forallb_forall in Hfree. specialize (Hfree e He). rewrite forallb_forall in Hfree. specialize (Hfree v Hv).
+    unfold is_object in Hfree. rewrite Ht in Hfree. cbn [negb orb] in Hfree.
+    destruct (find_types u (v_qname v)); [reflexivity|discriminate].
   Qed.
 
   Lemma fits_elem_prim_items var t l :
@@ -895,6 +927,15 @@ Section Gen.
     intros Ht H. unfold Fits.fits_item, vtype in H. rewrite Ht in H.
     destruct x as [|p| | | | |]; try discriminate H. unfold qleaf_ok in H. apply andb_true_iff in H as [H1 H2].
     destruct p; try discriminate H2. eexists. split; [reflexivity|]. split; assumption.
+  Qed.
+
+  Lemma fits_item_any rec var x :
+    v_types var = [TObject] -> fits_item rec var x = true ->
+    exists sx, x = VP (PStr sx) /\ leaf_ok TStr (v_format var) (PStr sx) = true /\ snd (c_datatype c (PStr sx)) = true.
+  Proof.
+    intros Ht H. unfold Fits.fits_item, vtype in H. rewrite Ht in H.
+    destruct x as [|p| | | | |]; try discriminate H. destruct p as [sx| | | | | | | |]; try discriminate H.
+    apply andb_true_iff in H as [H1 H2]. exists sx. repeat split; assumption.
   Qed.
 
   Lemma fits_item_class rec var k x :
@@ -1450,7 +1491,7 @@ Section Gen.
             rewrite (run_value_single f0 var VNone Hmx Hk Htf Hfa0).
             destruct f0 as [|f1]; [cbn [odepth] in *; lia|].
             destruct Hk as [Hk0 Hk']. cbn [run]. rewrite Hk0.
-            rewrite (convert_element_plain var VNone WNone Hany eq_refl). cbn [flat_map]. rewrite app_nil_r, bflat_prim. reflexivity. }
+            rewrite (convert_element_plain var VNone WNone (or_intror I) eq_refl). cbn [flat_map]. rewrite app_nil_r, bflat_prim. reflexivity. }
         assert (Hfield : In (v_name var, field_of fs var) fs \/ field_of fs var = VNone).
         { unfold field_of. destruct (assoc (v_name var) fs) eqn:Ea; [left; apply assoc_in; exact Ea|right; reflexivity]. }
         assert (Hdx : (odepth x < odepth (VObj cl fs))%nat).
@@ -1518,7 +1559,30 @@ Section Gen.
               destruct f as [|f0]; [cbn [odepth] in *; lia|].
               rewrite (run_value_single f0 var _ Hmx Hk Htf Efa). cbn [gbind flat_map]. rewrite app_nil_r.
               apply Hobj; [lia|exact Hfv|cbn [odepth] in *; lia].
-          + (* simple typed, or QName typed *)
+          + assert (Hty3 : ((exists t, v_types var = [t] /\ simple_type t = true /\ v_clazz var = None)
+                             \/ (v_types var = [TQName] /\ v_clazz var = None /\ v_tokens_factory var = None))
+                            \/ any_elem var)
+              by (destruct Hty2 as [H|[H|H]]; [left; left; exact H|left; right; exact H|right; exact H]).
+            clear Hty2. destruct Hty3 as [Hty2|Hae].
+            2:{ (* an xs:anyType field holding a str: plain text, no xsi:type *)
+                destruct Hae as [Htys [Hcl [Htf [Hfac [Hnl [Hdf [Hsq Hat]]]]]]].
+                destruct Hsrc as [Hw|[f0 [t0 [l0 [Hf0 _]]]]]; cbn [fst snd] in *; [|congruence].
+                unfold pair_whole in Hw. cbn [fst snd] in Hw. rewrite <- Hw in Hfv0.
+                unfold Fits.fits_elem in Hfv0. rewrite Hfac, Htf in Hfv0.
+                destruct x as [|p| | | | |]; try (unfold Fits.fits_item, vtype in Hfv0; rewrite Htys in Hfv0; discriminate Hfv0); [congruence|].
+                unfold Fits.fits_item, vtype in Hfv0. rewrite Htys in Hfv0. destruct p as [sx| | | | | | | |]; try discriminate Hfv0.
+                apply andb_true_iff in Hfv0 as [Hlf Hds].
+                rewrite Htf.
+                destruct f as [|f0]; [cbn [odepth] in *; lia|].
+                rewrite (run_value_single f0 var _ Hmx Hk Htf Hfac). cbn [gbind].
+                destruct f0 as [|f1]; [cbn [odepth] in *; lia|].
+                rewrite (run_anytype_prim f1 var (VP (PStr sx)) (enc_p (v_format var) (PStr sx)) Hk (or_intror Hds) I (encode_leaf TStr _ _ Hlf)).
+                cbn [flat_map g_item]. rewrite app_nil_r. reflexivity. }
+            (* simple typed, or QName typed *)
+            assert (Hany0 : v_any_type var = false).
+            { rewrite Hany. unfold is_object. destruct Hty2 as [[t [H1 [H2 _]]]|[H1 _]]; rewrite H1; [|reflexivity].
+              destruct t; try reflexivity. discriminate H2. }
+            assert (Hanyf : forall y, no_type_attr var y) by (intros y; left; exact Hany0).
             assert (Htt : exists t, v_types var = [t] /\ v_clazz var = None)
               by (destruct Hty2 as [[t [H1 [_ H2]]]|[H1 [H2 _]]]; eexists; split; eassumption).
             destruct Htt as [t [Htys Hcl]].
@@ -1531,7 +1595,7 @@ Section Gen.
             assert (Hprim : forall y f', fits_item (fits n) var y = true ->
                       run c u ign (S f') (CAnyType y var) = Ok (bflat (g_prim var y))).
             { intros y f' Hfy. destruct (Hleaf y Hfy) as [p [-> He]].
-              rewrite (run_anytype_prim f' var (VP p) (enc_p (v_format var) p) Hk Hany I He).
+              rewrite (run_anytype_prim f' var (VP p) (enc_p (v_format var) p) Hk (Hanyf _) I He).
               reflexivity. }
             destruct Hsrc as [Hw|[f0 [t0 [l0 [Hf0 [Htf0 [_ [El Hil]]]]]]]]; cbn [fst snd] in *.
             2:{ (* one item of a list field inside a sequence group *)
@@ -1559,7 +1623,7 @@ Section Gen.
                  rewrite (concatM_flat _ (fun z => bflat (g_prim var z))).
                  { rewrite flat_map_map. reflexivity. }
                  intros z Hz. destruct (fits_tokens_inv var tf z t Htys (Hfl z Hz)) as [tz [lz [-> [_ [Htk _]]]]].
-                 rewrite (convert_element_plain var (VList tz lz) _ Hany (encode_tokens t _ tz lz Htk)), bflat_prim. reflexivity.
+                 rewrite (convert_element_plain var (VList tz lz) _ (Hanyf _) (encode_tokens t _ tz lz Htk)), bflat_prim. reflexivity.
               -- destruct x as [| |tt l| | | |] eqn:Ex; try (cbn in Hfv; discriminate Hfv).
                  destruct l as [|y l'].
                  { unfold convert_tokens. cbn [py_truthy nonempty orb]. rewrite Hn. reflexivity. }
@@ -1568,7 +1632,7 @@ Section Gen.
                  assert (Hy : match y with VList _ _ => False | _ => True end).
                  { cbn [forallb] in Htk. apply andb_true_iff in Htk as [Hy _].
                    destruct (token_is_leaf _ _ _ Hy) as [p [-> _]]. exact I. }
-                 pose proof (convert_element_plain var (VList tt (y :: l')) _ Hany (encode_tokens t _ tt (y :: l') Htk)) as Hce.
+                 pose proof (convert_element_plain var (VList tt (y :: l')) _ (Hanyf _) (encode_tokens t _ tt (y :: l') Htk)) as Hce.
                  destruct y; try destruct Hy; cbn [flat_map]; rewrite app_nil_r; rewrite Hce, bflat_prim; reflexivity.
             * destruct (v_factory var) as [fa|] eqn:Efa.
               -- destruct x as [| |tt l| | | |]; try discriminate Hfv. apply andb_true_iff in Hfv as [_ Hfl].
